@@ -11,7 +11,8 @@ OBLIGATIONS = ["held_posts_sent_in_order", "held_handled_exactly_once", "held_ha
                "held_handled_all_when_quiescent", "held_order_refuted", "held_priority_refuted"]
 N_QUICK, N_THOROUGH = 400, 6000
 RULE = ("seeded random histories of Recv / Next / Start / Stop / Pause / Resume / Post (0-40 ops, 1-3 "
-        "senders, 1-2 targets; 63% default message type, 12% one other type 10/15/19/25 for all messages, "
+        "senders, 1-3 targets drawn from plain, underscore-prefixed (technical), all-digit names and, rarely, the "
+        "computation itself; 63% default message type, 12% one other type 10/15/19/25 for all messages, "
         "25% mixed types 10/15/19/20/25 and explicit post priorities) on one real MessagePassingComputation hosted on a real (unthreaded) "
         "Agent + Messaging; 70% of the histories end with Start, Resume and enough Next to drain; every 5th "
         "case is a fault history: the message sender raises on chosen posts (inside a resume flush and "
@@ -45,6 +46,10 @@ META = dict(
 )
 
 ME = 0
+# target ids -> computation names (opaque to the model): plain, technical (underscore prefix, the
+# naming convention of _mgt_* / _discovery_* / _replication_*), all digits, and the computation itself
+TARGETS = {1: "t1", 2: "t2", 11: "_mgt_a1", 12: "_discovery_x", 13: "_replication_a2", 14: "42", ME: "c0"}
+NAME2ID = {v: k for k, v in TARGETS.items()}
 FINDING = "C19-reinject-behind-queued"
 FINDING_PRIO = "C19-held-requeued-as-19"
 
@@ -56,7 +61,9 @@ def gen(rng, n, tier):
         mixed = rng.random() < 0.25
         uniform = None if mixed or rng.random() < 0.84 else rng.choice([10, 15, 19, 25])
         nsend = rng.randint(1, 3)
-        ntgt = rng.randint(1, 2)
+        tgts = rng.sample([1, 2, 11, 12, 13, 14], rng.randint(1, 3))
+        if rng.random() < 0.06:
+            tgts.append(ME)          # the computation posts to itself (always with the default priority)
         length = rng.choice([0, 1, 2, 3, 5, 8, 12, 20, 30, 40]) if rng.random() < 0.5 else rng.randint(0, 40)
         # weights of the op kinds vary per case so that long buffered runs occur
         w = dict(recv=rng.choice([1, 3, 6]), next=rng.choice([1, 3, 6]), start=rng.choice([0.3, 1]),
@@ -75,7 +82,8 @@ def gen(rng, n, tier):
             elif kind == "post":
                 mid += 1
                 prio = rng.choice([None, None, 20, 10, 19]) if mixed else None
-                ops.append(["post", 1 + rng.randrange(ntgt), mid, prio])
+                tg = rng.choice(tgts)
+                ops.append(["post", tg, mid, None if tg == ME else prio])
             else:
                 ops.append([kind])
         fail = []
@@ -107,7 +115,7 @@ def _fault_ops(rng, ops, mid):
         for _ in range(rng.randint(1, 5)):
             nid += 1
             if rng.random() < 0.8:
-                ops.append(["post", 1 + rng.randrange(2), nid, None])
+                ops.append(["post", rng.choice([1, 2, 11, 12, 13, 14]), nid, None])
             else:
                 ops.append(["recv", 5, nid, None])
         if rng.random() < 0.3:
@@ -140,14 +148,14 @@ def _mk():
     a = Agent("a1", InProcessCommunicationLayer())
     b = Agent("a2", InProcessCommunicationLayer())
     a.discovery.register_agent("a2", b.address, publish=False)
-    for t in ("t1", "t2"):
+    for t in (n for i, n in TARGETS.items() if i != ME):
         b.add_computation(Rec(t), publish=False)
         a.discovery.register_computation(t, "a2", publish=False)
     return a, b, Rec
 
 
 def _cid(name):
-    return int(name[1:])
+    return NAME2ID[name] if name in NAME2ID else int(name[1:])
 
 
 def run_impl(case):
@@ -196,7 +204,7 @@ def run_impl(case):
             c.pause(True)
         elif k == "post":
             try:
-                c.post_msg("t%d" % op[1], Message("m", op[2]), op[3])
+                c.post_msg(TARGETS[op[1]], Message("m", op[2]), op[3])
             except UnreachableAgent:
                 raised[-1] = True
     queue = [[e[0], e[1], _cid(e[3].src_comp), _cid(e[3].dest_comp), e[3].msg.content, e[3].msg_type]
@@ -224,11 +232,16 @@ def oracle(case, o):
     recv = [[op[1], op[2]] for op in ops if op[0] == "recv"]
     posts = [[ME, op[1], op[2], op[3]] for op in ops if op[0] == "post"]
     faulty = any(o["raised"])
+    selfpost = any(op[0] == "post" and op[1] == ME for op in ops)
     # --- posted messages
-    sent = [c for c in o["calls"] if c[1] != ME]          # handed to message_sender (attempts)
+    # own posts handed to message_sender (attempts); a call (x -> ME, 19) is a re-injection
+    sent = [c for c in o["calls"] if c[0] == ME and not (c[1] == ME and c[3] == 19)]
+    if selfpost:
+        # a message the computation sent to itself is also a reception
+        recv = recv + [[ME, c[2]] for c in sent if c[1] == ME]
     held_posts = [[ME, t, i, p] for t, i, p in o["bpost"]]
     for cl, p in zip(o["calls"], o["calls_paused"]):
-        if p and cl[0] == ME and cl[1] != ME:
+        if p and cl[0] == ME and not (cl[1] == ME and cl[3] == 19):
             return "posts: message %r sent while the computation is paused" % cl
     for m in sent:
         if m not in posts:
@@ -278,7 +291,7 @@ def oracle(case, o):
     if o["running"] and not o["paused"] and o["brecv"]:
         return "once: %d messages still held although the computation runs" % len(o["brecv"])
     # --- order (one message type): handled in reception order and before newer ones
-    if _uniform_type(case) is not None:
+    if _uniform_type(case) is not None and not selfpost:
         h = o["handled"]
         if h != recv[:len(h)]:
             return "order: handled %r, reception order %r" % (h[:10], recv[:10])
